@@ -4,6 +4,7 @@ import NGF.Model.InjJudge
 import NGF.Model.InjGuards
 import NGF.Model.InjCompose
 import NGF.Model.Proto
+import NGF.Model.PrintTie
 /-
 Driver entry for C04. Tab-separated fields; strings escaped as \\ \t \n \r.
 
@@ -15,6 +16,8 @@ mode `judge` (stateful, one answer per line):
                                                                                         `fail <clause> <path> <pos> <detail>`
 mode `regex`:   <validator> <string>   -> `1` | `0` | `bad-op`   (Lean validator models over the generated regexes)
 mode `lex`:     <content>              -> token stream, for debugging
+mode `print`:   JSON lines of harness/c04/print.go {"flat","http","matches",…} -> JSON: the guards of Model/PrintGuards on the
+                scenario, lex(real http.conf) against lex(printDirs(render(genR s))) (Model/PrintTie.tie)
 -/
 namespace NGF.Inj
 open NGF.Nginx NGF.Proto
@@ -233,6 +236,110 @@ def lexLine (line : String) : String :=
 
 end NGF.Inj
 
+/-! ### `print` mode: the flat scenario of harness/c02 (decoders copied from Driver/C03) and the real files -/
+namespace NGF.C04Print
+open Lean
+
+namespace Flat
+open NGF.Spec.GatewayAPI
+
+def str (j : Json) (k : String) : Except String String := do (← j.getObjVal? k).getStr?
+def nat (j : Json) (k : String) : Except String Nat := do (← j.getObjVal? k).getNat?
+def int (j : Json) (k : String) : Except String Int := do (← j.getObjVal? k).getInt?
+def bool (j : Json) (k : String) : Except String Bool := do (← j.getObjVal? k).getBool?
+def arr (j : Json) (k : String) : Except String (List Json) := do
+  match j.getObjVal? k with
+  | .ok v => if v.isNull then pure [] else return (← v.getArr?).toList
+  | .error _ => pure []
+def strs (j : Json) (k : String) : Except String (List String) := do (← arr j k).mapM (·.getStr?)
+def strMap (j : Json) (k : String) : Except String (List (String × String)) := do
+  match j.getObjVal? k with
+  | .ok (.obj m) => m.toList.mapM fun (a, b) => do pure (a, ← b.getStr?)
+  | _ => pure []
+
+def dKV (j : Json) : Except String KV := do pure ⟨← str j "type", ← str j "name", ← str j "value"⟩
+def dHeader (j : Json) : Except String Header := do pure ⟨← str j "name", ← str j "value"⟩
+
+def dMatch (j : Json) : Except String Match := do
+  pure { ptype := ← str j "ptype", pvalue := ← str j "pvalue", method := ← str j "method",
+         headers := ← (← arr j "headers").mapM dKV, query := ← (← arr j "query").mapM dKV,
+         hasGm := ← bool j "hasGm", gmType := ← str j "gmType", hasService := ← bool j "hasService",
+         service := ← str j "service", hasGMethod := ← bool j "hasGMethod", gmethod := ← str j "gmethod" }
+
+def dFilter (j : Json) : Except String Filter := do
+  pure { type := ← str j "type", present := ← bool j "present", scheme := ← str j "scheme", hostname := ← str j "hostname",
+         hasPort := ← bool j "hasPort", port := ← nat j "port", code := ← nat j "code", pathType := ← str j "pathType",
+         pathValue := ← str j "pathValue", set := ← (← arr j "set").mapM dHeader, add := ← (← arr j "add").mapM dHeader,
+         remove := ← strs j "remove" }
+
+def dBackend (j : Json) : Except String Backend := do
+  pure { group := ← str j "group", kind := ← str j "kind", hasNs := ← bool j "hasNs", ns := ← str j "ns", name := ← str j "name",
+         hasPort := ← bool j "hasPort", port := (← int j "port").toNat, weight := ← int j "weight", nfilters := ← nat j "nfilters" }
+
+def dRule (j : Json) : Except String Rule := do
+  pure { matches_ := ← (← arr j "matches").mapM dMatch, filters := ← (← arr j "filters").mapM dFilter,
+         backends := ← (← arr j "backends").mapM dBackend }
+
+def dParent (j : Json) : Except String ParentRef := do
+  pure { group := ← str j "group", kind := ← str j "kind", hasNs := ← bool j "hasNs", ns := ← str j "ns", name := ← str j "name",
+         hasSection := ← bool j "hasSection", sectionName := ← str j "section", hasPort := ← bool j "hasPort" }
+
+def dRoute (j : Json) : Except String Route := do
+  pure { kind := ← str j "kind", ns := ← str j "ns", name := ← str j "name", age := ← int j "age",
+         parents := ← (← arr j "parents").mapM dParent, hostnames := ← strs j "hostnames", rules := ← (← arr j "rules").mapM dRule }
+
+def dListener (j : Json) : Except String Listener := do
+  pure { name := ← str j "name", port := (← int j "port").toNat, proto := ← str j "proto", hasHost := ← bool j "hasHost",
+         host := ← str j "host", hasTls := ← bool j "hasTls", tlsMode := ← str j "tlsMode", tlsOpts := ← nat j "tlsOpts",
+         certs := ← (← arr j "certs").mapM (fun c => do
+           pure ({ group := ← str c "group", kind := ← str c "kind", hasNs := ← bool c "hasNs", ns := ← str c "ns", name := ← str c "name" } : CertRef)),
+         nsFrom := ← str j "from", hasSel := ← bool j "hasSel", selMatch := ← strMap j "selMatch", selExprs := ← nat j "selExprs",
+         hasKinds := ← bool j "hasKinds",
+         kinds := ← (← arr j "kinds").mapM (fun c => do pure (⟨← str c "group", ← str c "kind"⟩ : KindRef)) }
+
+def dScenario (j : Json) : Except String Scenario := do
+  pure { cls := ← str j "class", ctlr := ← str j "ctlr",
+         protectedPorts := ← (← arr j "protected").mapM (·.getNat?),
+         gcs := ← (← arr j "gcs").mapM (fun c => do pure (⟨← str c "name", ← str c "ctlr", ← int c "age", ← bool c "params"⟩ : GatewayClass)),
+         gws := ← (← arr j "gws").mapM (fun g => do
+           pure ({ ns := ← str g "ns", name := ← str g "name", cls := ← str g "class", age := ← int g "age",
+                   addresses := ← nat g "addresses", listeners := ← (← arr g "listeners").mapM dListener } : Gateway)),
+         nss := ← (← arr j "nss").mapM (fun n => do pure (⟨← str n "name", ← strMap n "labels"⟩ : Namespace)),
+         routes := ← (← arr j "routes").mapM dRoute,
+         svcs := ← (← arr j "svcs").mapM (fun v => do
+           pure ({ ns := ← str v "ns", name := ← str v "name",
+                   ports := ← (← arr v "ports").mapM (fun p => do pure (⟨(← int p "port").toNat, ← bool p "ready"⟩ : SvcPort)) } : Svc)),
+         grants := ← (← arr j "grants").mapM (fun g => do
+           pure ({ ns := ← str g "ns",
+                   «from» := ← (← arr g "from").mapM (fun f => do pure (⟨← str f "group", ← str f "kind", ← str f "ns"⟩ : GrantFrom)),
+                   to := ← (← arr g "to").mapM (fun t => do pure (⟨← str t "group", ← str t "kind", ← bool t "hasName", ← str t "name"⟩ : GrantTo)) } : Grant)),
+         secrets := ← (← arr j "secrets").mapM (fun x => do pure (⟨← str x "ns", ← str x "name", ← bool x "ok"⟩ : Secret)) }
+
+end Flat
+
+def getStr (j : Json) (k : String) : String := (j.getObjValAs? String k).toOption.getD ""
+
+def printCase (j : Json) : Except String Json := do
+  if getStr j "panic" != "" then
+    return Json.mkObj [("panic", getStr j "panic")]
+  let s ← Flat.dScenario (← j.getObjVal? "flat")
+  let t := NGF.PrintTie.tie (getStr j "http") (getStr j "matches") s
+  pure (Json.mkObj [("fieldsOK", t.fieldsOK), ("condsOK", t.condsOK), ("noBackslash", t.noBackslash), ("fieldsSafe", t.fieldsSafe),
+    ("markHttp", t.markHttp), ("markMatches", t.markMatches), ("realLexes", t.realLexes), ("realRoundtrip", t.realRoundtrip),
+    ("inFragment", t.inFragment), ("why", t.why), ("rawSame", t.rawSame), ("toksEqual", t.toksEqual), ("skelEqual", t.skelEqual),
+    ("diff", t.diff), ("dirsOK", t.dirsOK), ("dirsOKw", t.dirsOKw), ("roundtrip", t.roundtrip), ("markModel", t.markModel), ("tokens", t.tokens),
+    ("modelChars", t.modelChars), ("skel", t.skel), ("modelSkel", t.modelSkel), ("skelIntended", t.skelIntended)])
+
+def printLine (l : String) : String :=
+  match Json.parse l with
+  | .error e => (Json.mkObj [("error", "bad-op"), ("why", e)]).compress
+  | .ok j =>
+    match printCase j with
+    | .ok v => v.compress
+    | .error e => (Json.mkObj [("error", "bad-op"), ("why", e)]).compress
+
+end NGF.C04Print
+
 def main (args : List String) : IO UInt32 := do
   let stdin ← IO.getStdin
   let stdout ← IO.getStdout
@@ -251,10 +358,14 @@ def main (args : List String) : IO UInt32 := do
     NGF.Proto.forEachLine stdin fun l => stdout.putStrLn (NGF.Inj.regexLine l)
     stdout.flush
     return 0
+  | ["print"] =>
+    NGF.Proto.forEachLine stdin fun l => stdout.putStrLn (NGF.C04Print.printLine l)
+    stdout.flush
+    return 0
   | ["lex"] =>
     NGF.Proto.forEachLine stdin fun l => stdout.putStrLn (NGF.Inj.lexLine l)
     stdout.flush
     return 0
   | _ =>
-    IO.eprintln "usage: ngfdriver_C04 judge|regex|model|lex"
+    IO.eprintln "usage: ngfdriver_C04 judge|regex|model|lex|print"
     return 2
